@@ -149,16 +149,21 @@ def history(v1: int, v2: int, v3: int, fresh2: bool, fresh3: bool, bytecode: boo
 def _texts():
     out = []
     atomic = False
+    tmp = None
     for v in range(NVAR):
         clean()
         cls, fail, env = check_definition(v)
         atomic = atomic or ("replace" in env.trace) or ("rename" in env.trace)
+        for wp in env.write_paths:
+            if wp != CACHE:
+                # the temporary file ANOTHER process running the same code would use: same name with its own pid
+                tmp = wp.replace(str(os.getpid()), "99999")
         out.append(open(CACHE).read() if os.path.exists(CACHE) else None)
     clean()
-    return out, atomic
+    return out, atomic, tmp
 
 
-TEXT, ATOMIC = _texts()      # ATOMIC: the code under test moves a finished file into place (os.replace) instead of writing in place
+TEXT, ATOMIC, OTHER_TMP = _texts()      # ATOMIC: the code under test moves a finished file into place (os.replace) instead of writing in place
 
 
 def seeded(j: int, jp: int, v: int, bytecode: bool) -> str:
@@ -303,7 +308,7 @@ def race(v1: int, v2: int, i1: int, a: int, i2: int, b: int) -> str:
     t = TEXT[v2]
     cut = [0, len(t) // 4, len(t) // 2, 3 * len(t) // 4, len(t)]
     parts = [t[cut[n]:cut[n + 1]] for n in range(4)]
-    inter = cachefs.interferer_steps(CACHE, parts, os.path.join(PKTS, "__pycache__", MODNAME + ".cpython-311.pyc"), ATOMIC)
+    inter = cachefs.interferer_steps(CACHE, parts, os.path.join(PKTS, "__pycache__", MODNAME + ".cpython-311.pyc"), ATOMIC, OTHER_TMP)
     progress = [0] * 16
     for n in range(16):
         progress[n] = a if n >= i1 else 0
@@ -317,6 +322,8 @@ def race(v1: int, v2: int, i1: int, a: int, i2: int, b: int) -> str:
     clean()
     if fail:
         return "FAIL sig=C16|race|%%s" %% _kind(fail)
+    if env.interferer_error is not None:
+        return "FAIL sig=C16|race|other-process-fails-with-%%s" %% type(env.interferer_error).__name__
     return "ok:survived"
 '''
 
